@@ -3,16 +3,23 @@ package mon
 import (
 	"fmt"
 	"os"
+	"strconv"
+	"strings"
 	"testing"
 
 	"verif/run"
 )
 
 func TestC2xDump(t *testing.T) {
-	id, want := os.Getenv("C2X_ID"), os.Getenv("C2X_CASE")
+	id, want, sub := os.Getenv("C2X_ID"), os.Getenv("C2X_CASE"), os.Getenv("C2X_GREP")
+	seed, _ := strconv.Atoi(os.Getenv("VERIF_SEED"))
+	if seed == 0 {
+		seed = 1
+	}
 	ck := run.Lookup(id)
-	ck.Gen(1, "quick", func(c run.Case) {
-		if c.ID == want {
+	ck.Gen(int64(seed), "quick", func(c run.Case) {
+		if c.ID == want || (sub != "" && strings.Contains(string(c.In), sub)) {
+			fmt.Println(c.ID)
 			fmt.Println(string(c.In))
 		}
 	})
